@@ -19,9 +19,8 @@
      first maximal element of additions ++ removals ++ flips; removals and flips come in edges_nx order.)
    * [nx.has_path] = Base.Graph.has_path (proved = dpath).  The flip test
         not any(len(path) > 2 for path in nx.all_simple_paths(model, X, Y))
-     is modelled as "no path X ->* Y in model minus the edge (X,Y)"; a simple path with more than two
-     nodes from X to Y is exactly a path avoiding that edge.  This step is an abstraction of networkx
-     and is exercised by the correspondence run. *)
+     is modelled as "no path X ->* Y in model minus the edge (X,Y)"; Props.C11_flip_test_faithful proves
+     that this is the same as "some repetition-free node list X..Y along edges has more than two nodes". *)
 From Coq Require Import List Bool Arith Lia PeanoNat ZArith QArith Qcanon.
 From PV Require Import Base.Graph.
 Import ListNotations.
